@@ -365,6 +365,11 @@ fn take_leaf_value(node: Arc<Node>) -> AccountData {
     }
 }
 
+// verification hook (guard: cfg(kani), set only by `cargo kani`): harnesses live in /verif
+#[cfg(kani)]
+#[path = "/verif/units/exec_state/kani/state_kani.rs"]
+mod verif_kani;
+
 #[cfg(test)]
 mod tests {
     use std::collections::BTreeMap;
